@@ -231,6 +231,28 @@ theorem bd_pk_k (hS : SigsSmall ctx env) (k : Key) : BdN ctx env (.pk_k k) := by
   · simp only [inputs, keyInput, Bool.not_false, if_true]
     exact Bd_intro [[]] rfl (by simp [zeroPush, element]) ⟨⟨1, by simp [info], by simp⟩, ⟨⟨-1, 0⟩, by simp [info, tPUSH], by simp⟩⟩
 
+theorem bd_older (n : Nat) : BdN ctx env (.older n) := by
+  obtain ⟨ht, hB, _⟩ := ty_older ctx n
+  unfold BdN
+  rw [lvOf_B ht hB]
+  constructor
+  · simp only [inputs]
+    split
+    · exact Bd_intro [] rfl rfl ⟨⟨0, by simp [info, leafOpsRow], by simp⟩, ⟨_, rfl, by simp [info, concatT, tPUSH, tNOP]⟩⟩
+    · exact Bd_none _ _ _
+  · simpa [inputs] using Bd_none _ _ _
+
+theorem bd_after (n : Nat) : BdN ctx env (.after n) := by
+  obtain ⟨ht, hB, _⟩ := ty_after ctx n
+  unfold BdN
+  rw [lvOf_B ht hB]
+  constructor
+  · simp only [inputs]
+    split
+    · exact Bd_intro [] rfl rfl ⟨⟨0, by simp [info, leafOpsRow], by simp⟩, ⟨_, rfl, by simp [info, concatT, tPUSH, tNOP]⟩⟩
+    · exact Bd_none _ _ _
+  · simpa [inputs] using Bd_none _ _ _
+
 theorem SizeExact_of_Bd {inp : Input} {W : OB} {T : OT} {lv : Int} (h : Bd inp W T lv) :
     SizeExact inp := fun w hw => (h w hw).1
 
@@ -544,10 +566,12 @@ theorem typed_of_s1Typed_wrap {w : Wrap} {x : Ms} (h : s1Typed ctx (.wrap w x) =
 /-- every node of a typed expression of the covered set is typed. -/
 theorem typed_of_s1Typed : ∀ (n : Ms), s1Typed ctx n = true → Typed ctx n
   | .f0, _ | .f1, _ | .pk_k _, _ | .pk_h _, _ | .hash _ _, _ => rfl
+  | .older n, _ => (ty_older ctx n).1
+  | .after n, _ => (ty_after ctx n).1
   | .wrap _ _, h => by simp only [s1Typed, Bool.and_eq_true, decide_eq_true_eq] at h; exact h.1.2
   | .bin _ _ _, h => by simp only [s1Typed, Bool.and_eq_true, decide_eq_true_eq] at h; exact h.1.1.2
   | .andor _ _ _, h => by simp only [s1Typed, Bool.and_eq_true, decide_eq_true_eq] at h; exact h.1.1.1
-  | .older _, h | .after _, h | .multi _ _, h | .multi_a _ _, h | .thresh _ _ _, h => by
+  | .multi _ _, h | .multi_a _ _, h | .thresh _ _ _, h => by
     simp [s1Typed] at h
 
 /-- the satisfier's candidates are within the static bounds, for the covered set. -/
@@ -558,6 +582,8 @@ theorem bd_s1 (hS : SigsSmall ctx env) : ∀ (n : Ms), s1Typed ctx n = true → 
   | .pk_k k, _, _ => bd_pk_k ctx env hS k
   | .pk_h k, _, hs => bd_pk_h ctx env hS k (by simpa [shaped] using hs)
   | .hash h d, _, _ => bd_hash ctx env h d
+  | .older n, _, _ => bd_older ctx env n
+  | .after n, _, _ => bd_after ctx env n
   | .wrap w x, h, hs => by
     have ht := typed_of_s1Typed ctx _ h
     simp only [s1Typed, Bool.and_eq_true, Bool.or_eq_true, beq_iff_eq, decide_eq_true_eq] at h
@@ -586,7 +612,7 @@ theorem bd_s1 (hS : SigsSmall ctx env) : ∀ (n : Ms), s1Typed ctx n = true → 
     exact bd_andor ctx env x y z ht (typed_of_s1Typed ctx x h.1.1.2) (typed_of_s1Typed ctx y h.1.2)
       (typed_of_s1Typed ctx z h.2) (bd_s1 hS x h.1.1.2 hs.1.1) (bd_s1 hS y h.1.2 hs.1.2)
       (bd_s1 hS z h.2 hs.2)
-  | .older _, h, _ | .after _, h, _ | .multi _ _, h, _ | .multi_a _ _, h, _ | .thresh _ _ _, h, _ => by
+  | .multi _ _, h, _ | .multi_a _ _, h, _ | .thresh _ _ _, h, _ => by
     simp [s1Typed] at h
 
 /-- what `satisfy` returns, when its candidate is canonical, has at most `max_stack_items` elements
